@@ -6,7 +6,9 @@
 //
 //   --schema FILE   XSD document declaring one global element  e<tid>  per type under test (built-in or derived)
 //   --types  FILE   "<tid>\t<xsd built-in name or ->" per line: which XSValue::DataType (if any) mirrors type <tid>
-//   --in FILE --out FILE [--skip N]   case file / result file (lines before N are skipped: restart after a crash)
+//   --in FILE --out FILE [--skip N]   one batch: case file / result file (lines before N are skipped: restart after a crash)
+//   --serve --out DIAGFILE            persistent mode used by xv/c09.py: the schema is loaded once, then commands
+//                                     "RUN\t<in>\t<out>\t<skip>\t<guards 0|1>" are read from stdin and answered with "DONE"
 //
 // Case lines (tab separated, strings escaped as ASCII with \uXXXX for every UTF-16 unit outside 0x21..0x7e and '\\'):
 //   V <tid> <lex>            DatatypeValidator::validate / getCanonicalRepresentation (+ XSValue validate / canonical /
